@@ -266,3 +266,353 @@ func vCallBin(op string, api string, a, b interface{}, opts ...FuncOpt) (Tensor,
 	}
 	panic("vCallBin: unknown op " + op)
 }
+
+// vCmpTruth: the truth value of Go's comparison `x op y` for the element type (one generic definition).
+func vCmpTruth[T vScalar](op string, x, y T) bool {
+	switch op {
+	case "ElEq":
+		return x == y
+	case "ElNe":
+		return x != y
+	}
+	lt, gt := false, false
+	switch xv := any(x).(type) {
+	case int:
+		lt, gt = xv < any(y).(int), xv > any(y).(int)
+	case int8:
+		lt, gt = xv < any(y).(int8), xv > any(y).(int8)
+	case int16:
+		lt, gt = xv < any(y).(int16), xv > any(y).(int16)
+	case int32:
+		lt, gt = xv < any(y).(int32), xv > any(y).(int32)
+	case int64:
+		lt, gt = xv < any(y).(int64), xv > any(y).(int64)
+	case uint:
+		lt, gt = xv < any(y).(uint), xv > any(y).(uint)
+	case uint8:
+		lt, gt = xv < any(y).(uint8), xv > any(y).(uint8)
+	case uint16:
+		lt, gt = xv < any(y).(uint16), xv > any(y).(uint16)
+	case uint32:
+		lt, gt = xv < any(y).(uint32), xv > any(y).(uint32)
+	case uint64:
+		lt, gt = xv < any(y).(uint64), xv > any(y).(uint64)
+	case uintptr:
+		lt, gt = xv < any(y).(uintptr), xv > any(y).(uintptr)
+	case float32:
+		lt, gt = xv < any(y).(float32), xv > any(y).(float32)
+	case float64:
+		lt, gt = xv < any(y).(float64), xv > any(y).(float64)
+	default:
+		panic("vCmpTruth: unordered element type")
+	}
+	switch op {
+	case "Lt":
+		return lt
+	case "Gt":
+		return gt
+	case "Lte":
+		// Go's <= on floats is false when either side is NaN: it is (x < y || x == y)
+		return vOr(lt, x == y)
+	case "Gte":
+		return vOr(gt, x == y)
+	}
+	panic("vCmpTruth: unknown op " + op)
+}
+
+// vOneZero: 1 or 0 of the element type.
+func vOneZero[T vScalar](b bool) T {
+	var r T
+	switch p := any(&r).(type) {
+	case *int:
+		*p = vIte(b, 1, 0)
+	case *int8:
+		*p = vIte[int8](b, 1, 0)
+	case *int16:
+		*p = vIte[int16](b, 1, 0)
+	case *int32:
+		*p = vIte[int32](b, 1, 0)
+	case *int64:
+		*p = vIte[int64](b, 1, 0)
+	case *uint:
+		*p = vIte[uint](b, 1, 0)
+	case *uint8:
+		*p = vIte[uint8](b, 1, 0)
+	case *uint16:
+		*p = vIte[uint16](b, 1, 0)
+	case *uint32:
+		*p = vIte[uint32](b, 1, 0)
+	case *uint64:
+		*p = vIte[uint64](b, 1, 0)
+	case *uintptr:
+		*p = vIte[uintptr](b, 1, 0)
+	case *float32:
+		*p = vIte[float32](b, 1, 0)
+	case *float64:
+		*p = vIte[float64](b, 1, 0)
+	case *complex64:
+		*p = vIte[complex64](b, 1, 0)
+	case *complex128:
+		*p = vIte[complex128](b, 1, 0)
+	case *bool:
+		*p = b
+	default:
+		panic("vOneZero: no 1/0 for this element type")
+	}
+	return r
+}
+
+func vCmpSupports(op, dt string) bool {
+	if op == "ElEq" || op == "ElNe" {
+		return true
+	}
+	switch dt {
+	case "bool", "complex64", "complex128", "uintptr":
+		return false
+	}
+	return true
+}
+
+func vCallCmp(op, api string, a, b interface{}, opts ...FuncOpt) (Tensor, error) {
+	if api == "method" {
+		at, aok := a.(*Dense)
+		bt, bok := b.(*Dense)
+		switch {
+		case aok && bok:
+			switch op {
+			case "Lt":
+				return at.Lt(bt, opts...)
+			case "Gt":
+				return at.Gt(bt, opts...)
+			case "Lte":
+				return at.Lte(bt, opts...)
+			case "Gte":
+				return at.Gte(bt, opts...)
+			case "ElEq":
+				return at.ElEq(bt, opts...)
+			case "ElNe":
+				return at.ElNe(bt, opts...)
+			}
+		case aok:
+			switch op {
+			case "Lt":
+				return at.LtScalar(b, true, opts...)
+			case "Gt":
+				return at.GtScalar(b, true, opts...)
+			case "Lte":
+				return at.LteScalar(b, true, opts...)
+			case "Gte":
+				return at.GteScalar(b, true, opts...)
+			case "ElEq":
+				return at.ElEqScalar(b, true, opts...)
+			case "ElNe":
+				return at.ElNeScalar(b, true, opts...)
+			}
+		case bok:
+			switch op {
+			case "Lt":
+				return bt.LtScalar(a, false, opts...)
+			case "Gt":
+				return bt.GtScalar(a, false, opts...)
+			case "Lte":
+				return bt.LteScalar(a, false, opts...)
+			case "Gte":
+				return bt.GteScalar(a, false, opts...)
+			case "ElEq":
+				return bt.ElEqScalar(a, false, opts...)
+			case "ElNe":
+				return bt.ElNeScalar(a, false, opts...)
+			}
+		}
+	}
+	switch op {
+	case "Lt":
+		return Lt(a, b, opts...)
+	case "Gt":
+		return Gt(a, b, opts...)
+	case "Lte":
+		return Lte(a, b, opts...)
+	case "Gte":
+		return Gte(a, b, opts...)
+	case "ElEq":
+		return ElEq(a, b, opts...)
+	case "ElNe":
+		return ElNe(a, b, opts...)
+	}
+	panic("vCallCmp: unknown op " + op)
+}
+
+// ---- unary ----
+
+func vUnSupports(op, dt string) bool {
+	isC := dt == "complex64" || dt == "complex128"
+	isF := dt == "float32" || dt == "float64"
+	isU := dt == "uint" || dt == "uint8" || dt == "uint16" || dt == "uint32" || dt == "uint64"
+	switch op {
+	case "Neg", "Inv", "Square", "Cube":
+		return true
+	case "Exp", "Tanh", "Log", "Log10", "Sqrt":
+		return isF || isC
+	case "Log2", "Cbrt", "InvSqrt":
+		return isF
+	case "Abs", "Sign":
+		return !isU && !isC // signed real types (complex has no kernel)
+	case "Clamp":
+		return !isC
+	}
+	return false
+}
+
+// vMath1 applies the element type's maths routine `fn` (float32 uses math32).
+func vMath1[T vNum](fn string, x T) (T, T) {
+	switch xv := any(x).(type) {
+	case float64:
+		var r float64
+		switch fn {
+		case "Exp":
+			r = math.Exp(xv)
+		case "Tanh":
+			r = math.Tanh(xv)
+		case "Log":
+			r = math.Log(xv)
+		case "Log2":
+			r = math.Log2(xv)
+		case "Log10":
+			r = math.Log10(xv)
+		case "Cbrt":
+			r = math.Cbrt(xv)
+		case "Sqrt":
+			r = math.Sqrt(xv)
+		}
+		return any(r).(T), any(r).(T)
+	case float32:
+		var r, r2 float32
+		switch fn {
+		case "Exp":
+			r, r2 = math32.Exp(xv), float32(math.Exp(float64(xv)))
+		case "Tanh":
+			r, r2 = math32.Tanh(xv), float32(math.Tanh(float64(xv)))
+		case "Log":
+			r, r2 = math32.Log(xv), float32(math.Log(float64(xv)))
+		case "Log2":
+			r, r2 = math32.Log2(xv), float32(math.Log2(float64(xv)))
+		case "Log10":
+			r, r2 = math32.Log10(xv), float32(math.Log10(float64(xv)))
+		case "Cbrt":
+			r, r2 = math32.Cbrt(xv), float32(math.Cbrt(float64(xv)))
+		case "Sqrt":
+			r, r2 = math32.Sqrt(xv), float32(math.Sqrt(float64(xv)))
+		}
+		return any(r).(T), any(r2).(T)
+	case complex128:
+		var r complex128
+		switch fn {
+		case "Exp":
+			r = cmplx.Exp(xv)
+		case "Tanh":
+			r = cmplx.Tanh(xv)
+		case "Log":
+			r = cmplx.Log(xv)
+		case "Log10":
+			r = cmplx.Log10(xv)
+		case "Sqrt":
+			r = cmplx.Sqrt(xv)
+		}
+		return any(r).(T), any(r).(T)
+	case complex64:
+		var r complex128
+		xc := complex128(xv)
+		switch fn {
+		case "Exp":
+			r = cmplx.Exp(xc)
+		case "Tanh":
+			r = cmplx.Tanh(xc)
+		case "Log":
+			r = cmplx.Log(xc)
+		case "Log10":
+			r = cmplx.Log10(xc)
+		case "Sqrt":
+			r = cmplx.Sqrt(xc)
+		}
+		return any(complex64(r)).(T), any(complex64(r)).(T)
+	}
+	panic("vMath1: no routine")
+}
+
+func vUnDefined[T vNum](op string, x T) bool {
+	if op == "Inv" && vIsInt[T]() {
+		return !vIsZero(x) // 1/0 panics in Go: outside the statement
+	}
+	return true
+}
+
+// vUnMatch: res is the scalar function `op` of x for the element type.
+func vUnMatch[T vNum](op string, res, x, lo, hi T) bool {
+	var one T = 1
+	var zero T
+	switch op {
+	case "Neg":
+		return vSameBits(res, -x)
+	case "Inv":
+		return vSameBits(res, one/x)
+	case "Square":
+		return vSameBits(res, x*x)
+	case "Cube":
+		return vSameBits(res, x*x*x)
+	case "Abs":
+		switch xv := any(x).(type) {
+		case float64:
+			return vSameBits(res, any(math.Abs(xv)).(T))
+		case float32:
+			return vSameBits(res, any(math32.Abs(xv)).(T))
+		}
+		return vSameBits(res, vIte(vLess(x, zero), -x, x))
+	case "Sign":
+		return vSameBits(res, vIte(vLess(x, zero), -one, vIte(vLess(zero, x), one, x)))
+	case "Clamp":
+		return vSameBits(res, vIte(vLess(x, lo), lo, vIte(vLess(hi, x), hi, x)))
+	case "InvSqrt":
+		s, _ := vMath1("Sqrt", x)
+		return vSameBits(res, one/s)
+	case "Sqrt", "Exp", "Tanh", "Log", "Log2", "Log10", "Cbrt":
+		r1, r2 := vMath1(op, x)
+		return vOr(vSameBits(res, r1), vSameBits(res, r2))
+	}
+	panic("vUnMatch: unknown op " + op)
+}
+
+func vCallUn(op string, a *Dense, lo, hi interface{}, opts ...FuncOpt) (Tensor, error) {
+	switch op {
+	case "Neg":
+		return Neg(a, opts...)
+	case "Inv":
+		return Inv(a, opts...)
+	case "Square":
+		return Square(a, opts...)
+	case "Cube":
+		return Cube(a, opts...)
+	case "Exp":
+		return Exp(a, opts...)
+	case "Tanh":
+		return Tanh(a, opts...)
+	case "Log":
+		return Log(a, opts...)
+	case "Log2":
+		return Log2(a, opts...)
+	case "Log10":
+		return Log10(a, opts...)
+	case "Sqrt":
+		return Sqrt(a, opts...)
+	case "Cbrt":
+		return Cbrt(a, opts...)
+	case "InvSqrt":
+		return InvSqrt(a, opts...)
+	case "Abs":
+		return Abs(a, opts...)
+	case "Sign":
+		return Sign(a, opts...)
+	case "Clamp":
+		return Clamp(a, lo, hi, opts...)
+	}
+	panic("vCallUn: unknown op " + op)
+}
